@@ -657,9 +657,173 @@ theorem dotChain_eval (n : Nat) (hn : 0 < n) (fa fb : Nat → Option Py) (pa pb 
   refine ⟨_, rfl, ?_⟩
   simp only [eval]
   have := key ((List.range n').map Nat.succ) (by simp) (prodTerm (pa 0) (pb 0)) (ga 0 * gb 0) (hev 0 (by omega))
-  simp only [List.map_map] at this
   rw [this, ← list_sum_range, List.range_succ_eq_map]
   simp [List.map_map]
+
+/-! ### indexed arrays -/
+
+theorem findKey_range (m i : Nat) :
+    findKey (rangeKeys m) (.i i) = if i < m then some (.i i) else none := by
+  induction m with
+  | zero => simp [rangeKeys, findKey]
+  | succ m ih =>
+    simp only [rangeKeys, findKey] at ih ⊢
+    rw [List.range_succ, List.map_append, List.find?_append, ih]
+    by_cases h : i < m
+    · have : i < m + 1 := by omega
+      simp [h, this]
+    · by_cases h2 : i = m
+      · subst h2; simp [Key.same]
+      · have : ¬ i < m + 1 := by omega
+        simp [h, this, Key.same, h2]
+
+theorem rangeKeys_length (m : Nat) : (rangeKeys m).length = m := by simp [rangeKeys]
+
+theorem rangeKeys_isEmpty (m : Nat) : (rangeKeys m).isEmpty = decide (m = 0) := by
+  cases m <;> simp [rangeKeys, List.range_succ]
+
+theorem mat_arrayed (A : String) (m n : Nat) (hm : 0 < m) : (Elem.mat A m n).arrayed = true := by
+  simp [Elem.arrayed, Elem.mat, rangeKeys_isEmpty]; omega
+
+theorem vec_arrayed (A : String) (m : Nat) (hm : 0 < m) : (Elem.vec A m).arrayed = true := by
+  simp [Elem.arrayed, Elem.vec, rangeKeys_isEmpty]; omega
+
+theorem mat_dims (A : String) (m n : Nat) (hm : 0 < m) : (Operand.el (Elem.mat A m n)).dims = .d2 m n := by
+  simp [Operand.dims, elemDims, mat_arrayed A m n hm]; simp [Elem.mat, rangeKeys_length]
+
+theorem vec_dims (A : String) (m : Nat) (hm : 0 < m) : (Operand.el (Elem.vec A m)).dims = .d2 m 0 := by
+  simp [Operand.dims, elemDims, vec_arrayed A m hm]; simp [Elem.vec, rangeKeys_length]
+
+theorem mat_sub (A : String) (m n i j : Nat) (hi : i < m) (hj : j < n) :
+    subOf (.el (Elem.mat A m n)) [.i i, .i j] = some (ref A [.i i, .i j]) := by
+  have ha := mat_arrayed A m n (by omega)
+  simp only [subOf, Elem.sub, Elem.path, ha, if_true]
+  simp [Elem.mat, findKey_range, hi, hj, rangeKeys_isEmpty]; omega
+
+theorem vec_sub (A : String) (m i : Nat) (hi : i < m) :
+    subOf (.el (Elem.vec A m)) [.i i] = some (ref A [.i i]) := by
+  have ha := vec_arrayed A m (by omega)
+  simp only [subOf, Elem.sub, Elem.path, ha, if_true]
+  simp [Elem.vec, findKey_range, hi]
+
+/-- the values of an indexed matrix / vector element under `ρ` -/
+def valM (A : String) (m n : Nat) : Matrix (Fin m) (Fin n) R := fun i j => rv ρ A [.i i.val, .i j.val]
+def valV (A : String) (m : Nat) : Fin m → R := fun i => rv ρ A [.i i.val]
+
+/-- **matrix · matrix**: the expression of result element (i, j) evaluates to `(A * B) i j`
+(Mathlib's `Matrix.mul`) -/
+theorem dot_mm (A B : String) (m n p : Nat) (hn : 0 < n) (i : Fin m) (j : Fin p) :
+    ∃ e, dotTerm (.el (.mat A m n)) (.el (.mat B n p)) [.i i, .i j] = some e ∧
+      eval (car O ρ) σ e = .r ((valM ρ A m n * valM ρ B n p) i j) := by
+  have hm : 0 < m := Fin.pos i
+  have hp : 0 < p := Fin.pos j
+  obtain ⟨e, he, hev⟩ := dotChain_eval O ρ σ n hn
+    (fun k => subOf (.el (.mat A m n)) [.i i, .i k]) (fun k => subOf (.el (.mat B n p)) [.i k, .i j])
+    (fun k => ref A [.i i, .i k]) (fun k => ref B [.i k, .i j])
+    (fun k => rv ρ A [.i i, .i k]) (fun k => rv ρ B [.i k, .i j])
+    (fun k hk => mat_sub A m n i k i.isLt hk) (fun k hk => mat_sub B n p k j hk j.isLt)
+    (fun k _ => eval_ref O ρ σ _ _) (fun k _ => eval_ref O ρ σ _ _)
+  refine ⟨e, ?_, ?_⟩
+  · rw [← he]
+    unfold dotTerm
+    rw [mat_dims A m n hm, mat_dims B n p hn]
+    have h1 : n ≠ 0 := by omega
+    have h2 : p ≠ 0 := by omega
+    have h3 : ¬ (i.val ≥ m ∨ j.val ≥ p) := by omega
+    simp [h1, h2, keyNat, h3]
+  · rw [hev, Matrix.mul_apply, Finset.sum_range]
+    rfl
+
+/-- **matrix · vector** = `Matrix.mulVec` -/
+theorem dot_mv (A v : String) (m n : Nat) (hn : 0 < n) (i : Fin m) :
+    ∃ e, dotTerm (.el (.mat A m n)) (.el (.vec v n)) [.i i] = some e ∧
+      eval (car O ρ) σ e = .r (Matrix.mulVec (valM ρ A m n) (valV ρ v n) i) := by
+  have hm : 0 < m := Fin.pos i
+  obtain ⟨e, he, hev⟩ := dotChain_eval O ρ σ n hn
+    (fun k => subOf (.el (.mat A m n)) [.i i, .i k]) (fun k => subOf (.el (.vec v n)) [.i k])
+    (fun k => ref A [.i i, .i k]) (fun k => ref v [.i k])
+    (fun k => rv ρ A [.i i, .i k]) (fun k => rv ρ v [.i k])
+    (fun k hk => mat_sub A m n i k i.isLt hk) (fun k hk => vec_sub v n k hk)
+    (fun k _ => eval_ref O ρ σ _ _) (fun k _ => eval_ref O ρ σ _ _)
+  refine ⟨e, ?_, ?_⟩
+  · rw [← he]
+    unfold dotTerm
+    rw [mat_dims A m n hm, vec_dims v n hn]
+    have h1 : n ≠ 0 := by omega
+    have h3 : ¬ (i.val ≥ m) := by omega
+    simp [h1, keyNat, h3]
+  · rw [hev, Matrix.mulVec, dotProduct, Finset.sum_range]
+    rfl
+
+/-- **vector · matrix** = `Matrix.vecMul` -/
+theorem dot_vm (v A : String) (m n : Nat) (hm : 0 < m) (j : Fin n) :
+    ∃ e, dotTerm (.el (.vec v m)) (.el (.mat A m n)) [.i j] = some e ∧
+      eval (car O ρ) σ e = .r (Matrix.vecMul (valV ρ v m) (valM ρ A m n) j) := by
+  have hn : 0 < n := Fin.pos j
+  obtain ⟨e, he, hev⟩ := dotChain_eval O ρ σ m hm
+    (fun k => subOf (.el (.vec v m)) [.i k]) (fun k => subOf (.el (.mat A m n)) [.i k, .i j])
+    (fun k => ref v [.i k]) (fun k => ref A [.i k, .i j])
+    (fun k => rv ρ v [.i k]) (fun k => rv ρ A [.i k, .i j])
+    (fun k hk => vec_sub v m k hk) (fun k hk => mat_sub A m n k j hk j.isLt)
+    (fun k _ => eval_ref O ρ σ _ _) (fun k _ => eval_ref O ρ σ _ _)
+  refine ⟨e, ?_, ?_⟩
+  · rw [← he]
+    unfold dotTerm
+    rw [vec_dims v m hm, mat_dims A m n hm]
+    have h1 : n ≠ 0 := by omega
+    have h3 : ¬ (j.val ≥ n) := by omega
+    simp [h1, keyNat, h3]
+  · rw [hev, Matrix.vecMul, dotProduct, Finset.sum_range]
+    rfl
+
+/-- **vector · vector** = `dotProduct` (the equation of a non-arrayed element) -/
+theorem dot_vv (v w : String) (m : Nat) (hm : 0 < m) :
+    ∃ e, dotTermNoIndex (.el (.vec v m)) (.el (.vec w m)) = some e ∧
+      eval (car O ρ) σ e = .r (dotProduct (valV ρ v m) (valV ρ w m)) := by
+  obtain ⟨e, he, hev⟩ := dotChain_eval O ρ σ m hm
+    (fun k => subOf (.el (.vec v m)) [.i k]) (fun k => subOf (.el (.vec w m)) [.i k])
+    (fun k => ref v [.i k]) (fun k => ref w [.i k])
+    (fun k => rv ρ v [.i k]) (fun k => rv ρ w [.i k])
+    (fun k hk => vec_sub v m k hk) (fun k hk => vec_sub w m k hk)
+    (fun k _ => eval_ref O ρ σ _ _) (fun k _ => eval_ref O ρ σ _ _)
+  refine ⟨e, ?_, ?_⟩
+  · rw [← he]
+    unfold dotTermNoIndex
+    rw [vec_dims v m hm, vec_dims w m hm]
+    simp
+  · rw [hev, dotProduct, Finset.sum_range]
+    rfl
+
+/-- **scalar forms of dot** (`A.dot(s)`, `s.dot(A)`, `A.dot(2.0)`): every element times the value -/
+theorem dot_scalar_right (a b : Operand) (idx : List Key) (hb : b.dims = .val) (ha : a.dims ≠ .val)
+    (p : Py) (h : dotTerm a b idx = some p) :
+    ∃ x y, a.valAt O ρ idx = some x ∧ b.valAt O ρ idx = some y ∧ eval (car O ρ) σ p = .r (x * y) := by
+  unfold dotTerm at h
+  rw [hb] at h
+  cases a with
+  | num n l => simp [Operand.dims] at ha
+  | el e =>
+    cases hd : (Operand.el e).dims with
+    | val => exact absurd hd ha
+    | d1 m => simp [Operand.dims, elemDims] at hd; split at hd <;> simp at hd
+    | d2 m n =>
+      rw [hd] at h
+      simp only [Option.map_eq_some_iff] at h
+      obtain ⟨x, hx, rfl⟩ := h
+      have harr : e.arrayed = true := by
+        simp only [Operand.dims, elemDims] at hd; split at hd <;> simp_all
+      simp only [subOf, Elem.sub, Option.map_eq_some_iff] at hx
+      obtain ⟨path, hpath, rfl⟩ := hx
+      have hbv : ∃ y, b.valAt O ρ idx = some y ∧ eval (car O ρ) σ b.term = .r y := by
+        cases b with
+        | num n l => exact ⟨_, rfl, eval_numPy O ρ σ n l⟩
+        | el e' =>
+          have : e'.arrayed = false := by
+            simp only [Operand.dims, elemDims] at hb; split at hb <;> simp_all
+          exact ⟨rv ρ e'.name [], by simp [Operand.valAt, this], eval_ref O ρ σ _ _⟩
+      obtain ⟨y, hy, hey⟩ := hbv
+      exact ⟨rv ρ e.name path, y, by simp [Operand.valAt, harr, hpath], hy,
+        eval_prodTerm O ρ σ _ _ _ _ (eval_ref O ρ σ _ _) hey⟩
 
 end Sem
 
